@@ -27,12 +27,12 @@ import (
 )
 
 type l2server struct {
-	srv  *httptest.Server
-	gw   *protocol.Gateway
-	inst *gwInstance
-	mu   sync.Mutex
-	logs map[string][]string // connection id -> callback log
-	errlog lockedWriter      // http.Server error log ("http: panic serving ...")
+	srv    *httptest.Server
+	gw     *protocol.Gateway
+	inst   *gwInstance
+	mu     sync.Mutex
+	logs   map[string][]string // connection id -> callback log
+	errlog lockedWriter        // http.Server error log ("http: panic serving ...")
 }
 
 // panics counts the handler panics net/http recovered since the server started.
@@ -263,15 +263,15 @@ type tclient interface {
 
 // tunnelScript: what one client does on one tunnel.
 type tunnelScript struct {
-	transport string   // ws | legacy
-	id        string   // connection id
-	packets   [][]byte // sent one per message / chunk
-	hostSends []byte   // what the backend writes once connected
-	xff       string
-	auth      string   // Authorization header value ("" = none)
-	returnCookie bool  // a client that has talked to the gateway before and sends its session cookie back
-	afterEnd  [][]byte // packets sent after the tunnel should have ended (silence check)
-	end       string   // how the client ends: close | leave
+	transport    string   // ws | legacy
+	id           string   // connection id
+	packets      [][]byte // sent one per message / chunk
+	hostSends    []byte   // what the backend writes once connected
+	xff          string
+	auth         string   // Authorization header value ("" = none)
+	returnCookie bool     // a client that has talked to the gateway before and sends its session cookie back
+	afterEnd     [][]byte // packets sent after the tunnel should have ended (silence check)
+	end          string   // how the client ends: close | leave
 }
 
 type tunnelResult struct {
